@@ -49,7 +49,7 @@ CALLBACKS = ["core_first", "core_mid", "core_last", "blk_first", "blk_para", "in
 def floors(tier):
     q = tier == "quick"
     f = {"crash_points.fresh": 5000 if q else 150000, "crash_points.sequence": 3000 if q else 100000, "raised_inside_library": 8000, "fault.silent_invocation": 300,
-         "fault.in_container": 300, "fault.in_skiptoken": 100, "reset_rules.paths": 2000, "hammer.sequences": 100, "reset_rules.nested": 500, "reset_rules.entry_with_empty_chain": 500, "post_state_compared": 8000}
+         "fault.in_container": 300, "fault.in_skiptoken": 100, "reset_rules.paths": 2000, "hammer.sequences": 100, "reset_rules.nested": 500, "reset_rules.entry_with_empty_chain": 500, "reset_rules.exception_propagated": 1000, "post_state_compared": 8000}
     for c in CALLBACKS:
         f["cb." + c] = 50
     for e in EXC:
@@ -239,12 +239,15 @@ def reset_case(ctx, case):
             elif k == "parse":
                 md.render(DOCS[0])
             elif k == "raise":
+                ctl["expected_exc"] = EXC[act[1]]
                 raise EXC[act[1]](f"body raise depth {depth}")
             elif k == "fault":
                 ctl["ctr"].clear()
                 ctl["target"] = (act[1], 1, act[2])
+                ctl["expected_exc"] = EXC[act[2]]
                 try:
                     md.render(DOCS[0])
+                    ctl["expected_exc"] = None   # the armed callback was not reached in this configuration
                 finally:
                     ctl["target"] = None
             elif k == "return":
@@ -283,6 +286,13 @@ def reset_case(ctx, case):
         run_with(case["script"], 0)   # the whole script runs inside an outermost block
     except BaseException as e:  # noqa: BLE001
         raised = e
+    exp = ctl.get("expected_exc")
+    if exp is not None and not isinstance(raised, exp):
+        problems.append(f"an exception ({exp.__name__}) raised inside the reset_rules block(s) did not reach the caller (got {type(raised).__name__ if raised else 'normal return'})")
+        ctx.count("reset_rules.exception_expected")
+    elif exp is not None:
+        ctx.count("reset_rules.exception_expected")
+        ctx.count("reset_rules.exception_propagated")
     # added rules stay registered (disabled); compare rule activity for the rules that existed on entry
     final = md.get_active_rules()
     if final != entry:
@@ -293,7 +303,7 @@ def reset_case(ctx, case):
             problems.append("probe parses differ from the twin after the reset_rules blocks")
     ctx.nontrivial("reset", repr(case["script"]), case["conf"])
     for p in problems[:1]:
-        ctx.violation("reset_rules-not-restored", f"{p} | script={case['script']} escaped={type(raised).__name__ if raised else None}", case)
+        ctx.violation("reset_rules-exception-swallowed" if "did not reach the caller" in p else "reset_rules-not-restored", f"{p} | script={case['script']} escaped={type(raised).__name__ if raised else None}", case)
 
 
 def flatten(script):
